@@ -178,6 +178,32 @@ def rule_setitem(ctx):
             if core1 and all(any(_implies(b, a) for b in g2) for a in core1):
                 both.remove(l)
                 break
+    # ... or by a search made before the loop: `bad = next((x for x in S if C(x)), None); if bad is not None: raise` - once that is passed, no element of S satisfies C
+    from ..rules import cond_paths
+    searched = []
+    for q in ev_f.paths:
+        for e1 in q.events:
+            if e1.kind == 'raise' and not e1.loops:
+                for a, pol in e1.guards:
+                    if a[0] == 'cmp' and a[1] == 'is' and a[3] == T.CONST_NONE and pol is False and a[2][0] == 'call' and T.dotted(a[2][1]) == 'next' and len(a[2][2]) == 2 \
+                            and a[2][2][1] == T.CONST_NONE and a[2][2][0][0] == 'comp' and len(a[2][2][0][3]) == 1:
+                        comp = a[2][2][0]
+                        clid, src, conds = comp[3][0]
+                        if comp[2] == ('elem', src, clid) and conds:
+                            searched.append((clid, src, conds))
+    for l in list(both):
+        e2 = loops_raise[l]
+        for clid, src, conds in searched:
+            need = []
+            for c in conds:
+                tp = [g for g, truth_ in cond_paths(relabel(c, clid, l)) if truth_]
+                if len(tp) != 1:
+                    need = None
+                    break
+                need.extend(tp[0])
+            if need and all(any(_implies(b, a) for b in set(e2.guards)) for a in need):
+                both.remove(l)
+                break
     if both:
         e = loops_mut[both[0]]
         ctx.violated('R3', fi, e.node, 'the same loop appends new axes to the dataset and raises ValueError for a mismatching axis: an array whose later dimension '
@@ -408,15 +434,20 @@ def rule_renames(ctx):
     fi = ctx.fn(DS + 'set_axis')
     ev = run(ctx, fi, bind={'inplace': T.CONST_TRUE})
     ok = False
+    aset = ctx.P.functions.get('dimarray.core.axes.Axis.set')
     for p in ev.paths:
         for e in p.calls('set'):
-            if T.call_receiver(e.a) == ('sub', ('attr', SELF, 'axes'), P_('axis')) and T.kw(e.a, 'inplace') == T.CONST_TRUE and T.kw(e.a, 'values') == P_('values') \
-                    and T.kw(e.a, 'name') == P_('name'):
+            # (arguments compared by parameter: positional and keyword spellings read the same)
+            b = bind_call_args(e.a, aset, method=True) if aset is not None else {'values': T.kw(e.a, 'values'), 'name': T.kw(e.a, 'name'), 'inplace': T.kw(e.a, 'inplace')}
+            if T.call_receiver(e.a) == ('sub', ('attr', SELF, 'axes'), P_('axis')) and b.get('inplace') == T.CONST_TRUE and b.get('values') == P_('values') \
+                    and b.get('name') == P_('name'):
                 ok = True
     if ok:
         ctx.holds('R6', 'set_axis: self.axes[axis].set(..., inplace=True)')
     else:
-        ctx.violated('R6', fi, 'set_axis', 'set_axis must modify the shared Axis object in place (self.axes[axis].set(values=, name=, inplace=True))')
+        # written another way (a local alias of the dataset, a helper ...): what the dataset and every variable see afterwards is read off the interpreted scenarios
+        from ..scenario_rule import rule_scenarios
+        rule_scenarios(ctx, 'R6', only=DS + 'set_axis', title='set_axis modifies the shared Axis object (interpreted scenarios)')
     fi = ctx.fn(DS + 'rename_axes')
     ev = run(ctx, fi, bind={'inplace': T.CONST_TRUE}, mode='join')
     ok = False
